@@ -9,6 +9,7 @@ Stages
           reply parsers, name/string decoders at many offsets, hexdump/split, addrinfo conversion),
           each on an exactly sized heap copy under ASan+UBSan+LSan with a counting-allocator ledger
           and a 2 s per-call CPU watchdog.
+  msan  : (thorough) the total profile again under MemorySanitizer on fresh case indices.
   fuzz  : (thorough) the same body as a libFuzzer target, N independent bounded processes.
 """
 import os
@@ -133,6 +134,7 @@ def run(tier, seed, scale=1.0):
     rn = vdriver.explore(sp, ncases, chunk=max(1, ncases // 96), chunk_timeout=1800)
     names_exhaustive = (rn.counters.get("names_blocks_done", 0) == ncases and not rn.harness_errors and
                         not any(v["key"].startswith(("hang:", "abort:", "asan:", "ubsan:")) for v in rn.violations))
+    rn.counters["names_enumeration_complete"] = 1 if names_exhaustive else 0
     res.merge(rn)
 
     # ---- total: every decoding entry point on generated / mutated / corpus inputs
@@ -140,6 +142,18 @@ def run(tier, seed, scale=1.0):
     sp = private_spec("legacy", "total", seed, opts={"corpus": CORPUS})
     res.merge(vdriver.explore(sp, per, chunk=max(50, min(400, per // 128)), chunk_timeout=900,
                               stop_after_violations=2000))
+
+    # ---- MSan replay of the deterministic workload on fresh case indices (thorough only)
+    if not quick:
+        try:
+            spm = private_spec("legacy", "total", seed, opts={"corpus": CORPUS, "nodup_blank_rate": 0}, flavor="msan")
+            nm = int(80000 * scale)
+            rm = vdriver.explore(spm, nm, chunk=max(50, min(400, nm // 64 or 50)), chunk_timeout=900, first=50000000,
+                                 stop_after_violations=2000)
+            rm.counters = {"msan_" + k: v for k, v in rm.counters.items() if k in ("entry_calls", "parse_accepted")}
+            res.merge(rm)
+        except RuntimeError as e:
+            res.harness_errors.append("msan stage: %r" % (e,))
 
     # ---- optional libFuzzer stage (thorough only)
     if not quick and scale >= 0.05:
